@@ -17,7 +17,7 @@ def run(ctx):
     ctx.model('ContainersMC', 'ContainersMC', required=('DoPutSlice', 'DoPutOne', 'DoDelOne'))
     editcheck.run_sweep(ctx, per_template=20 if ctx.quick else 0, n_arg=150 if ctx.quick else 0, props=PROPS)
     # (F) systematic deletions (single-valued fields, tails / ends of every list field) of every node x field of the corpus
-    editcheck.run_fieldsweep(ctx, variants=(1, 4, 6) if ctx.quick else tuple(range(10)), per_class=2 if ctx.quick else 6,
+    editcheck.run_fieldsweep(ctx, variants=(1, 4, 6, 8) if ctx.quick else tuple(range(10)), per_class=2 if ctx.quick else 6,
                              props=PROPS)
     n_hist, n_steps = (1300, 10) if ctx.quick else (32000, 25)
     specs = editcheck.history_specs(ctx, n_hist, n_steps)
